@@ -23,6 +23,13 @@ var advNames = []string{
 	"tab\there", "line\nbreak", "\r\n", "\x01\x02", "\u00a0", "\ufeffbom",
 	"N0", "N1", "r0", "r1", "o0", "u0", "null", "0", "-1", "%00", "%", "a%20b", "a+b", "a&b=c", "a#b", "a:b", "a@b", "(a)", "a/b", "../x", "'", "\"", "\\", "'; DROP TABLE keto_relation_tuples; --",
 	"00000000-0000-0000-0000-000000000000", "ffffffff-ffff-ffff-ffff-ffffffffffff",
+	// one uuid in the spellings uuid parsers accept: six different names
+	"6ba7b810-9dad-11d1-80b4-00c04fd430c8", "6BA7B810-9DAD-11D1-80B4-00C04FD430C8", "{6ba7b810-9dad-11d1-80b4-00c04fd430c8}",
+	"urn:uuid:6ba7b810-9dad-11d1-80b4-00c04fd430c8", "6ba7b8109dad11d180b400c04fd430c8", "6ba7b810-9dad-11d1-80b4-00c04fd430c8 ",
+	// names that differ only in Unicode normalisation, case folding or width
+	"e\u0301", "\u00e9", "\u212a", "K", "k", "\uff21", "straße", "strasse", "STRASSE", "ﬁ", "fi",
+	// numbers in the spellings number parsers accept
+	"1", "01", "1.0", "1e0", "+1", "0x1", "true", "True", "NULL", "nil", "undefined",
 }
 
 func runC16(env *Env, rc *RunCtx) {
